@@ -694,10 +694,9 @@ fn try_run_func(
         // the status of a function call is that of the last command it ran
         let mut status = 0;
         for cr in cr_list {
-            stdout.push_str(cr.stdout.trim());
-            stdout.push(' ');
-            stderr.push_str(cr.stderr.trim());
-            stderr.push(' ');
+            // what the commands of the body wrote, as they wrote it
+            stdout.push_str(&cr.stdout);
+            stderr.push_str(&cr.stderr);
             status = cr.status;
         }
         let mut cr = CommandResult::new();
